@@ -6,6 +6,7 @@ import (
 	"sort"
 	"strings"
 	"sync"
+	"sync/atomic"
 	"time"
 
 	"github.com/massnetorg/mass-core/massutil"
@@ -670,6 +671,35 @@ func c17RaceCase(t *core.T, rounds int) {
 		return
 	}
 	passes := []string{wd.Keys[0].Pass, wd.Keys[1].Pass}
+	// from here on the storage interposers only forward: their own locks must not order the wallet's
+	// goroutines (harness synchronisation would hide races from the detector)
+	wd.W.DB.SetPassive(true)
+	wd.N.Wrap.SetPassive(true)
+	defer func() {
+		wd.W.DB.SetPassive(false)
+		wd.N.Wrap.SetPassive(false)
+	}()
+	// failpoint-style delays (sleeps only, no synchronisation): the worker lingers after it has given
+	// the follower back, the follower lingers between its database commit and its in-memory update
+	// The follower raises a flag while it lingers between commit and in-memory update; the worker,
+	// after giving the follower back, lingers until it sees the flag (or 30 ms pass) and then goes on.
+	// The flag orders nothing that matters: it is stored BEFORE the follower's in-memory update and
+	// read BEFORE the worker's, so the two updates themselves stay unordered unless the wallet's own
+	// locks order them.
+	var atCommitted int32
+	wd.W.Points.SetFn(func(name string) {
+		switch name {
+		case "resume.after":
+			for i := 0; i < 300 && atomic.LoadInt32(&atCommitted) == 0; i++ {
+				time.Sleep(100 * time.Microsecond)
+			}
+		case "block.committed":
+			atomic.StoreInt32(&atCommitted, 1)
+			time.Sleep(3 * time.Millisecond)
+			atomic.StoreInt32(&atCommitted, 0)
+		}
+	})
+	defer wd.W.Points.SetFn(nil)
 	stop := make(chan struct{})
 	var wg sync.WaitGroup
 	var calls int64
@@ -693,6 +723,18 @@ func c17RaceCase(t *core.T, rounds int) {
 		}()
 	}
 	W := wd.W.W
+	// most blocks are preceded by the unconfirmed delivery of some of their transactions: only
+	// transactions the wallet knew as pending enter the follower's in-memory bookkeeping when they
+	// confirm (h.mempool / h.expiredMempool), and only those are touched again by a reorganisation
+	deliver := func(b *sim.Block) {
+		for i, tx := range b.Msg.Transactions {
+			if i > 0 && t.R.Chance(60) {
+				wd.W.DeliverTx(tx)
+				t.Count("unconfirmed_deliveries_before_their_block", 1)
+			}
+		}
+		wd.W.Deliver(b)
+	}
 	api(func(r *core.Rand) { W.UseWallet(ids[r.Intn(2)]) }, t.R.Uint64())
 	api(func(r *core.Rand) { W.WalletBalance(uint32(r.Intn(3)), r.Bool()) }, t.R.Uint64())
 	api(func(r *core.Rand) { W.AddressBalance(1, nil); W.GetUtxo(nil) }, t.R.Uint64())
@@ -732,13 +774,27 @@ func c17RaceCase(t *core.T, rounds int) {
 				// tips arrive while the import runs
 				for j := 0; j < 2; j++ {
 					if b, err := wd.Extend(t.R.Range(1, 2)); err == nil {
-						wd.W.Deliver(b)
+						deliver(b)
 					}
 				}
 			}
 		case i%7 == 6 && len(extra) > 0:
 			if W.RemoveWallet(extra[0], "c17pass") == nil {
 				extra = extra[1:]
+				// a reorganisation and tips arrive while the removal rounds run: between two rounds the
+				// follower re-adds the transactions of the rolled-back blocks to the in-memory pending
+				// set while the worker takes the removed wallet's transactions out of it
+				if wd.N.Height() > 4 {
+					if nb, _, err := wd.Fork(t.R.Range(1, 2), 2, 2); err == nil && nb != nil {
+						wd.W.Deliver(nb)
+					}
+				}
+				for j := 0; j < 2; j++ {
+					if b, err := wd.Extend(t.R.Range(1, 2)); err == nil {
+						deliver(b)
+					}
+				}
+				t.Count("removals_overlapped_by_a_reorganisation", 1)
 			}
 		case i%5 == 4 && wd.N.Height() > 4:
 			if nb, _, err := wd.Fork(1, 2, 1); err == nil && nb != nil {
@@ -749,7 +805,7 @@ func c17RaceCase(t *core.T, rounds int) {
 			if err != nil {
 				t.Fatalf("extend: %v", err)
 			}
-			wd.W.Deliver(b)
+			deliver(b)
 		}
 		t.Eval(1)
 		time.Sleep(time.Duration(t.R.Intn(3)) * time.Millisecond)
@@ -788,9 +844,9 @@ func init() {
 		},
 		Run: func(t *core.T) {
 			if t.Index%4 == 3 {
-				rounds := 60
+				rounds := 300
 				if t.Tier == "thorough" {
-					rounds = 300
+					rounds = 1200
 				}
 				c17RaceCase(t, rounds)
 				return
